@@ -88,7 +88,7 @@ def run(tier, rep):
         calib, ncal = printerpipe.calibration_batch(wd, 2, printerpipe.QUICK_OPS if q else printerpipe.ALL_OPS, rep)
         ncalib0 = len(progs)
         progs += calib
-        findings = printerpipe.run_treeeq(progs, wd, rep)
+        findings = printerpipe.run_treeeq(progs, wd, rep, shards=2 if q else 8, timeout=1500 if q else 5400)
     for kind, p, k, why in findings:
         if kind == "CALIB":
             rep.notes.append("calibration: " + why)
